@@ -608,7 +608,11 @@ func execConnect(in val.V) val.V {
 			}
 			return nil
 		})
-		if cfg.At(9).Num() == 1 && !connHasRejection(run.steps) {
+		allSteps := append([]val.V{}, run.steps...)
+		for _, sc := range in.At(2).Items() {
+			allSteps = append(allSteps, sc.Items()...)
+		}
+		if cfg.At(9).Num() == 1 && !connHasRejection(allSteps) {
 			validator = sse.NoopValidator // the library's own accept-everything validator
 		}
 		client := &sse.Client{
@@ -643,27 +647,49 @@ func execConnect(in val.V) val.V {
 			run.items = append(run.items, val.L(val.N(1), val.S(e.LastEventID), val.S(e.Type), val.S(e.Data)))
 		})
 
-		done := make(chan error, 1)
-		go func() {
-			defer func() {
-				if r := recover(); r != nil {
-					done <- fmt.Errorf("panic: %v", r)
-				}
+		// one Connect call: what it logged, what it returned; more = whether Connect may be called again on this
+		// Connection (it returned by itself and the request context is alive)
+		call := func() (out []val.V, more bool) {
+			done := make(chan error, 1)
+			go func() {
+				defer func() {
+					if r := recover(); r != nil {
+						done <- fmt.Errorf("panic: %v", r)
+					}
+				}()
+				done <- conn.Connect()
 			}()
-			done <- conn.Connect()
-		}()
-		var ret error
-		select {
-		case ret = <-done:
-		case <-time.After(30 * time.Second):
-			cancel()
-			<-done
-			return val.L(val.List(run.items), val.L(val.S("Connect did not return within 30 s")), val.List(run.gaps))
+			var ret error
+			select {
+			case ret = <-done:
+			case <-time.After(30 * time.Second):
+				cancel()
+				<-done
+				return []val.V{val.List(run.items), val.L(val.S("Connect did not return within 30 s")), val.List(run.gaps)}, false
+			}
+			if run.overrun {
+				return []val.V{val.List(run.items), val.L(), val.List(run.gaps)}, false
+			}
+			return []val.V{val.List(run.items), val.L(connRetOf(ctx, ret)), val.List(run.gaps)}, ctx.Err() == nil
 		}
-		if run.overrun {
-			return val.L(val.List(run.items), val.L(), val.List(run.gaps))
+		first, more := call()
+		if len(in.Items()) < 3 {
+			return val.List(first)
 		}
-		return val.L(val.List(run.items), val.L(connRetOf(ctx, ret)), val.List(run.gaps))
+		// the same Connection connected again, once per further script: the Connection, its request (header, body,
+		// GetBody and its call count) and the Client are the same objects; only the log and the script are new
+		further := []val.V{}
+		for _, sc := range in.At(2).Items() {
+			if !more {
+				break
+			}
+			run.items, run.gaps, run.steps, run.idx = nil, nil, sc.Items(), 0
+			run.pending, run.reject = false, 0
+			var out []val.V
+			out, more = call()
+			further = append(further, val.List(out))
+		}
+		return val.List(append(first, val.List(further)))
 	})
 }
 
@@ -1034,6 +1060,154 @@ func connNearRetrySweep(c *Ctx) {
 	}
 }
 
+// ---- the same Connection connected again -------------------------------------------------------
+//
+// Connect returns for a reason other than the context - the retries are used up, MaxRetries is negative (every Connect
+// makes one attempt and the application loops itself), the validator or the body reset failed - and is CALLED AGAIN on
+// the same *Connection: input ( cfg steps ( steps ... ) ), one script per call.  What the Connection carries from call to
+// call (the last event ID, the fact that a request was made before, the request with its header and body) makes the
+// FIRST request of a later call a reconnection like any other.
+
+// small streams that set, change, reset or do not touch the last event ID
+var connAgainBodies = []string{
+	"id: 1\ndata: a\n\n", "id: 2\n\n", "id\n\n", "id: 7\ndata: cut", "data: x\n\n", "id: a\x00b\ndata: n\n\n", "", ": c\n\n",
+	"id: 3\ndata: a\n\nid: 4\ndata: b\n\n", "id: 5\ndata: a\n\nid\ndata: b\n\n", "retry: 1\nid: 6\ndata: r\n\n", "id: 8\r\ndata: y\r\n\r\nid: 9",
+}
+
+func connAgainStream(r *rng.R, c *Ctx) val.V {
+	body := rng.Pick(r, connAgainBodies)
+	if r.Chance(1, 2) {
+		body = connBody(r, 2, false)
+	}
+	var ending val.V
+	switch k := r.Intn(20); {
+	case k < 12:
+		ending = val.L(val.N(0))
+	case k < 18:
+		ending = val.L(val.N(1), val.N(connErrIdx(r, c, 100)))
+	case k == 18:
+		ending = val.L(val.N(3))
+		body += "\n\n"
+	default:
+		ending = val.L(val.N(2), val.N(uint64(r.Intn(2)))) // cancellation inside Read: the run ends with this call
+	}
+	return val.L(val.N(3), val.S(body), ending, connChunks(r, len(body)), val.Bool(r.Chance(1, 4)), connStatus(r, c))
+}
+
+// connAgainScript is the script of one call, built so that Connect returns by itself: 0-2 attempts first (only when
+// retries are allowed), then a rejected response, or as many failures as use up the retries (a stream's end counts as
+// one), or - rarely - cancellation inside RoundTrip, after which no further call is made
+func connAgainScript(r *rng.R, c *Ctx, maxR int64) val.V {
+	steps := []val.V{}
+	terr := func() val.V { return val.L(val.N(0), val.N(connErrIdx(r, c, 200))) }
+	if maxR > 0 {
+		for i := r.Intn(3); i > 0; i-- {
+			steps = append(steps, connAgainStream(r, c))
+		}
+	}
+	switch k := r.Intn(12); {
+	case k < 2:
+		c.Count("again-call-ends:rejected")
+		steps = append(steps, val.L(val.N(2), val.N(connErrIdx(r, c, 300)), connStatus(r, c)))
+	case k == 2:
+		c.Count("again-call-ends:cancelled")
+		steps = append(steps, val.L(val.N(1)))
+	case k < 8:
+		c.Count("again-call-ends:stream-then-failures")
+		steps = append(steps, connAgainStream(r, c))
+		for i := int64(0); i < maxR; i++ {
+			steps = append(steps, terr())
+		}
+	default:
+		c.Count("again-call-ends:failures")
+		steps = append(steps, terr())
+		for i := int64(0); i < maxR; i++ {
+			steps = append(steps, terr())
+		}
+	}
+	return val.List(steps)
+}
+
+func connAgainRandom(c *Ctx, n int) {
+	r := c.R
+	for i := 0; i < n; i++ {
+		maxR := rng.Pick(r, []int64{-1, -1, -1, 1, 1, 2})
+		ini := int64(1+r.Intn(50)) * 1000
+		mul := rng.Pick(r, []ratio{{1, 1}, {3, 2}, {2, 1}})
+		bo := val.L(val.Z(ini), vrat(mul.n, mul.d), vrat(-1, 1), val.Z(0), val.Z(0), val.Z(maxR))
+		onRetry := r.Chance(3, 4)
+		patience := val.L()
+		if onRetry {
+			patience = val.L(val.Z(connPatience))
+		}
+		hdr := val.L()
+		if r.Chance(1, 10) {
+			hdr = val.L(val.S(rng.Pick(r, []string{"init", "0", "xyz"})))
+		}
+		bk := connBodyKind(r, c)
+		ncalls := 2 + r.Intn(2)
+		scripts := make([]val.V, ncalls)
+		all := []val.V{}
+		for j := range scripts {
+			scripts[j] = connAgainScript(r, c, maxR)
+			all = append(all, scripts[j].Items()...)
+		}
+		c.Count(fmt.Sprintf("again:calls:%d", ncalls))
+		c.Count(fmt.Sprintf("again:body-kind:%d", bk.At(0).Num()))
+		c.Count(fmt.Sprintf("again:max-retries:%d", maxR))
+		c.Emit(val.L(val.L(bo, bk, val.Bool(onRetry), hdr, patience, val.Bool(false), connOtherConnections(r, c), val.L(val.N(0), val.N(0)),
+			connCtxKind(r, c, false), connValidator(r, c, all)), scripts[0], val.List(scripts[1:])))
+	}
+}
+
+// every kind of request body x {one attempt per call, one retry per call} x how the first call ends {a stream of each of
+// the small bodies ending cleanly, a read error, a transport error, a rejected response} x what the second call's stream
+// does to the ID; a third call follows with one more stream and a fourth with a failure: the header and the body of the
+// first request of calls two, three and four, and ErrNoGetBody / GetBody's error instead of a request
+func connAgainSweep(c *Ctx) {
+	bodies := []val.V{
+		val.L(val.N(0), val.N(0), val.N(0)), val.L(val.N(1), val.N(0), val.N(0)), val.L(val.N(2), val.N(0), val.N(0)),
+		val.L(val.N(3), val.N(0), val.N(0)), val.L(val.N(4), val.N(1), val.N(402)), val.L(val.N(4), val.N(2), val.N(11403)),
+		val.L(val.N(4), val.N(0), val.N(23404)),
+	}
+	stream := func(body string, ending val.V) val.V {
+		return val.L(val.N(3), val.S(body), ending, val.L(), val.Bool(false), val.N(200))
+	}
+	eof := val.L(val.N(0))
+	i := 0
+	for _, bk := range bodies {
+		for _, maxR := range []int64{-1, 1} {
+			bo := val.L(val.Z(2000), vrat(3, 2), vrat(-1, 1), val.Z(0), val.Z(0), val.Z(maxR))
+			// the steps that end a call once [first] has been served
+			finish := func(first ...val.V) val.V {
+				steps := append([]val.V{}, first...)
+				if maxR > 0 {
+					steps = append(steps, val.L(val.N(0), val.N(201)))
+				}
+				return val.List(steps)
+			}
+			firsts := []val.V{}
+			for _, b := range connAgainBodies {
+				firsts = append(firsts, finish(stream(b, eof)))
+			}
+			firsts = append(firsts,
+				finish(stream("id: 5\ndata: x\n\ndata: cut", val.L(val.N(1), val.N(20103)))),
+				finish(val.L(val.N(0), val.N(7203))),
+				val.L(stream("id: 4\ndata: a\n\n", eof), val.L(val.N(2), val.N(303), val.N(200))),
+				val.L(val.L(val.N(2), val.N(304), val.N(200))))
+			for _, first := range firsts {
+				for _, b2 := range []string{"id: 11\ndata: s\n\n", "id\ndata: s\n\n", "data: s\n\n", "id: 12\ndata: cut"} {
+					i++
+					c.Count("again-sweep")
+					further := val.L(finish(stream(b2, eof)), finish(stream("id: 13\ndata: t\n\n", eof)), finish(val.L(val.N(0), val.N(205))))
+					c.Emit(val.L(val.L(bo, bk, val.Bool(i%4 != 0), val.L(), val.L(val.Z(connPatience)), val.Bool(false), val.Int(i%3),
+						val.L(val.N(0), val.N(0)), val.Int(i%(connCtxKinds-1)), val.Int(0)), first, further))
+				}
+			}
+		}
+	}
+}
+
 func genConnect(c *Ctx) {
 	r := c.R
 	n := 3000
@@ -1103,6 +1277,12 @@ func genConnect(c *Ctx) {
 		c.Emit(val.L(val.L(bo, bk, val.Bool(true), val.L(), val.L(val.Z(connPatience)), val.Bool(false), connOtherConnections(r, c),
 			val.L(val.N(rtDelay), val.N(bodyDelay)), connCtxKind(r, c, false), connValidator(r, c, steps)), val.List(steps)))
 	}
+	nAgain := 1500
+	if c.Thorough {
+		nAgain = 30000
+	}
+	connAgainRandom(c, nAgain)
+	connAgainSweep(c)
 	connCharacterSweep(c)
 	connContextSweep(c)
 	connStatusSweep(c)
